@@ -23,6 +23,7 @@ func TestMain(m *testing.M) {
 	vh.Rule("rapid histories (race-detector build) in which the harness owns the interesting interleavings through the scripted transport: (1) receive with a cancelled own or connection context - cancelled before or during NextPackage / NextPackageUntil (also with a callback that fails in the middle of a response whose rest never arrives), with 0..capacity+k packages sent, consumer having taken j of them, packets still arriving or not; (2) SendPackage / QueuePackage with an already cancelled own or connection context (1..4 packets); (3) Close of channel 0 or of a logical channel in a generated state: receive queue empty / partly filled / full with the reader parked on it (response abandoned after j packages, capacity c, j+c < n), a consumer blocked in NextPackage, a SendPackage parked in the transport's Write, a header-only control packet queued behind the data, the connection's parent context already cancelled, peer answering the logout at once / late / never (60 s, thorough only), followed by every call on the closed channel incl. a second Close and by packets for its id; (4) Conn.Close with 1..4 channels in such states, with the connection error queue empty or full (transport failing), also after the context the connection was created with has been cancelled. Watchdog oracle: a cancelled receive returns within 1 s with a queued package or an error that errors.Is the context error; a cancelled send writes zero bytes; Close returns within 5 s (65 s for the silent peer), never panics; after Close every call satisfies errors.Is(err, ErrChannelClosed) and delivers nothing; Conn.Close leaves every channel closed, the transport closed and the reader ended within 2 s. Non-trivial: the cancel/close overlaps an operation in flight or the queue was at or beyond capacity; distinct by the history")
 	vh.Assume("'promptly' and 'bounded' are wall-clock bounds with slack (1 s / 5 s; a correct tree needs microseconds); schedules are sampled; one consumer per channel apart from the deliberately blocked one")
 	vh.Rule("also: the context (own or the connection's) is cancelled from inside the transport's k-th Write of a 2..8 packet request: no further write reaches the transport and the error wraps context.Canceled; Conn.Close after a logical channel with a lower id was closed on its own (gap in the ids); with overlapping Close calls, the closed condition is checked the moment any of them returns")
+	vh.Rule("also: after every send with an already cancelled context the next request (live context) is sent: the transport sees that request and nothing of the cancelled one; Channel.Reset() called before cancel / Close at any fill level returns at once")
 	vh.Main(m, "C13")
 }
 
